@@ -11,7 +11,8 @@
 (* (CTranspose) and their compositions.  The module defines element access at *)
 (* every index (documented panics), the wrapper algebra (H, T,                *)
 (* UnConjTranspose, Untranspose), Conj, Copy, Grow, Slice, Reset / ReuseAs,   *)
-(* Zero, Caps, IsEmpty, RawCMatrix, CEqual and CEqualApprox, and prints       *)
+(* Zero, Caps, IsEmpty, RawCMatrix, CEqual and CEqualApprox, views of views   *)
+(* (Slice / Grow of a Slice against the capacity left in the parent), and prints *)
 (* scripts (see MatObj.tla) that the harness interprets against the real code. *)
 EXTENDS Integers, Sequences, FiniteSets, TLC, Json
 
@@ -269,6 +270,88 @@ SliceCases ==
               a \in {y \in (0 - 1 .. cap[1]) \X (0 .. cap[1] + 1) \X (0 - 1 .. cap[2]) \X (0 .. cap[2] + 1) : y[1] < y[2] /\ y[3] < y[4]}}
            : x \in RepsOf({"CDense", "CView"}, {"N"})}
 
+(************************ views of views: the capacity *************************)
+\* A view is a window of a parent CDense with PR x PC elements: corner (p, q) (0-based), r x c elements.  Its
+\* capacity is what is left of the parent below and to the right of its corner - never more (a larger window
+\* would alias the next backing row or leave the backing slice), never less (the documentation promises every
+\* slice inside the capacity).  Slice(i, k, j, l) of a view is legal iff 0 <= i < k <= capacity rows and
+\* 0 <= j < l <= capacity columns - the capacity, not the dimensions - and moves the corner by (i, j);
+\* Grow(a, b) stays in the same backing array iff the grown window is inside the capacity (the capacity of
+\* the grown view itself is not documented: only "not beyond the parent" is demanded).
+\* Scripts: a parent, a first Slice with every corner (row offset and column offset independent), then a
+\* second Slice with every index inside / at / one beyond the capacity of the view, or a Grow; Caps of every
+\* object afterwards; a write through the last view must land in the parent's backing array at the slot the
+\* model computes (or, after a reallocating Grow, nowhere in it).
+View(p, q, r, c) == [p |-> p, q |-> q, r |-> r, c |-> c]
+VCap(PR, PC, v) == <<PR - v.p, PC - v.q>>
+VSliceOK(PR, PC, v, a) == /\ 0 <= a[1] /\ a[1] < a[2] /\ a[2] <= VCap(PR, PC, v)[1]
+                          /\ 0 <= a[3] /\ a[3] < a[4] /\ a[4] <= VCap(PR, PC, v)[2]
+VSlice(v, a) == View(v.p + a[1], v.q + a[3], a[2] - a[1], a[4] - a[3])
+\* R1: a legal view lies inside its parent and inside its capacity
+VInside(PR, PC, v) == /\ 0 <= v.p /\ 0 <= v.q /\ 1 <= v.r /\ 1 <= v.c
+                      /\ v.r <= VCap(PR, PC, v)[1] /\ v.c <= VCap(PR, PC, v)[2]
+                      /\ v.p + v.r <= PR /\ v.q + v.c <= PC
+VWin(s, PC, v) == Win(s, PC, v.p, v.q, v.r, v.c)
+VArgs(cr, cc) == {y \in (0 .. cr - 1) \X (1 .. cr + 1) \X (0 .. cc - 1) \X (1 .. cc + 1) : y[1] < y[2] /\ y[3] < y[4]}
+ViewCases ==
+    LET PR == MaxN  PC == MaxN + 1
+        x == Rep("CDense", PR, PC, 0, 0, "N")
+        s == TLCEval(StoreOf(x, Seed + 10))
+        root == View(0, 0, PR, PC)
+        caps(on, v) == [Step("Caps", on, <<>>) EXCEPT !.ret = VCap(PR, PC, v)]
+        beyond(on, a) == [Step("Slice", on, a) EXCEPT !.errs = {"ErrIndexOutOfRange"}, !.store = s, !.mask = AllMask(x)]
+        set(on, v) == LET s2 == [s EXCEPT ![WinSlot(PC, v.p, v.q, 1, 1)] = W7] IN
+                      [Step("Set", on, <<0, 0, W7[1], W7[2]>>) EXCEPT !.obs = on, !.rows = VWin(s2, PC, v), !.store = s2, !.mask = AllMask(x)]
+    IN UNION {LET v1 == VSlice(root, a1)
+                  cap == VCap(PR, PC, v1)
+                  first == [Step("Slice", 0, a1) EXCEPT !.obs = 1, !.rows = VWin(s, PC, v1), !.store = s, !.mask = AllMask(x)]
+              IN
+              \* Slice of the view
+              {LET ok == VSliceOK(PR, PC, v1, a2)
+                   v2 == VSlice(v1, a2)
+               IN IF ~ok
+                  THEN Case("ViewSlice", <<Obj(x, s)>>,
+                            <<first,
+                              [Step("Slice", 1, a2) EXCEPT !.errs = {"ErrIndexOutOfRange"}, !.store = s, !.mask = AllMask(x)],
+                              caps(1, v1)>>)
+                  ELSE IF Assert(VInside(PR, PC, v1) /\ VInside(PR, PC, v2), <<"view outside its parent", v1, v2>>)
+                  THEN Case("ViewSlice", <<Obj(x, s)>>,
+                            <<first,
+                              [Step("Slice", 1, a2) EXCEPT !.obs = 2, !.rows = VWin(s, PC, v2), !.store = s, !.mask = AllMask(x)],
+                              caps(1, v1), caps(2, v2),
+                              [Step("Dims", 1, <<>>) EXCEPT !.ret = <<v1.r, v1.c>>],
+                              set(2, v2)>>)
+                  ELSE Case("SKIP", <<>>, <<>>) :
+                 a2 \in VArgs(cap[1], cap[2])}
+              \cup
+              \* Grow of the view
+              {LET r2 == v1.r + ab[1]  c2 == v1.c + ab[2]
+                   inside == r2 <= cap[1] /\ c2 <= cap[2]
+                   vg == View(v1.p, v1.q, r2, c2)
+                   A == VWin(s, PC, v1)
+                   fz(i, j) == IF i <= v1.r /\ j <= v1.c THEN A[i][j] ELSE Zero2
+                   fh(i, j) == IF i <= cap[1] /\ j <= cap[2] THEN s[WinSlot(PC, v1.p, v1.q, i, j)] ELSE Zero2
+                   grow == [Step("Grow", 1, ab) EXCEPT !.obs = 2, !.store = s, !.mask = AllMask(x)]
+               IN IF inside
+                  THEN IF Assert(VInside(PR, PC, vg), <<"grown view outside its parent", vg>>)
+                       THEN Case("ViewGrow", <<Obj(x, s)>>,
+                                 <<first, [grow EXCEPT !.rows = VWin(s, PC, vg)],
+                                   caps(1, v1),
+                                   \* the capacity of the grown view is not documented (gonum: its dimensions); it can
+                                   \* never exceed what is left of the parent
+                                   beyond(2, <<0, cap[1] + 1, 0, 1>>), beyond(2, <<0, 1, 0, cap[2] + 1>>),
+                                   [Step("Dims", 1, <<>>) EXCEPT !.ret = <<v1.r, v1.c>>],
+                                   set(2, vg)>>)
+                       ELSE Case("SKIP", <<>>, <<>>)
+                  ELSE Case("ViewGrow", <<Obj(x, s)>>,
+                            <<first, [grow EXCEPT !.rows = Mk(r2, c2, fz), !.alt = Mk(r2, c2, fh)],
+                              caps(1, v1),
+                              [Step("Dims", 1, <<>>) EXCEPT !.ret = <<v1.r, v1.c>>, !.obs = 1, !.rows = A],
+                              \* a new allocation: the write does not reach the parent
+                              [Step("Set", 2, <<0, 0, W7[1], W7[2]>>) EXCEPT !.obs = 1, !.rows = A, !.store = s, !.mask = AllMask(x)]>>) :
+                 ab \in (0 .. 2) \X (0 .. 2)}
+              : a1 \in {y \in (0 .. PR - 1) \X (1 .. PR) \X (0 .. PC - 1) \X (1 .. PC) : y[1] < y[2] /\ y[3] < y[4]}}
+
 (*************************** CEqual and CEqualApprox ***************************)
 \* CEqual: same size and element-wise equal
 EqualCases ==
@@ -314,6 +397,7 @@ CasesOf(g) ==
       [] g = "Copy" -> CopyCases
       [] g = "Shape" -> ShapeCases \cup GrowCases \cup SliceCases \cup NewCases
       [] g = "Equal" -> EqualCases \cup ApproxCases
+      [] g = "View" -> ViewCases
 Cases == UNION {CasesOf(g) : g \in Ops}
 
 VARIABLE c
